@@ -8,7 +8,9 @@ package main
 // That rests on every call of abmf.SendAccountDebitRequest / rating.SendServiceUsageRequest being an ordinary call
 // made by the charging operation itself (which holds the subscriber lock until it returns).  The extractor lists
 // every call of the two functions in the non-test Go files under internal/ and pkg/ and marks a call `async` when
-//   - it sits lexically inside a `go` statement, a `defer` statement or a function literal, or
+//   - it sits lexically inside a `go` statement, a `defer` statement or a function literal — other than a literal that
+//     runs as part of the call it appears in: one that is called on the spot (`func() {…}()`), or one handed to a function
+//     of the scanned files that does nothing with that parameter but call it by ordinary calls (`withLock(ue, func() {…})`) —, or
 //   - the function it sits in is (transitively, by name) started by a `go` statement or deferred, or called from
 //     inside a `go` statement, deferred call or function literal, anywhere in the scanned files.
 // (Not seen: a function stored in a variable and started through it.)
@@ -64,11 +66,80 @@ func astClientCallSites() ([]callSite, error) {
 	fns := map[string]*fnInfo{}  // function name -> calls (merged over packages: an over-approximation)
 	asyncFn := map[string]bool{} // functions started by go / defer / used as a value
 	var sites []callSite
+	parsed := map[string]*ast.File{}
 	for _, p := range files {
 		f, err := parser.ParseFile(fset, p, nil, 0)
 		if err != nil {
 			return nil, err
 		}
+		parsed[p] = f
+	}
+	// functions that only ever CALL a function-typed parameter, by ordinary calls of their own task: name -> parameter indices
+	// (a name declared twice with different behaviour is dropped)
+	syncParams := map[string]map[int]bool{}
+	dropped := map[string]bool{}
+	for _, p := range files {
+		for _, d := range parsed[p].Decls {
+			fd, ok := d.(*ast.FuncDecl)
+			if !ok || fd.Body == nil || fd.Type.Params == nil {
+				continue
+			}
+			idx := 0
+			good := map[int]bool{}
+			for _, fld := range fd.Type.Params.List {
+				_, isFunc := fld.Type.(*ast.FuncType)
+				names := fld.Names
+				if len(names) == 0 {
+					idx++
+					continue
+				}
+				for _, nm := range names {
+					if isFunc && nm.Name != "_" {
+						okUse := true
+						var st []ast.Node
+						ast.Inspect(fd.Body, func(n ast.Node) bool {
+							if n == nil {
+								st = st[:len(st)-1]
+								return true
+							}
+							if id, isID := n.(*ast.Ident); isID && id.Name == nm.Name {
+								// allowed: the Fun of a CallExpr that is not under go / defer / a function literal
+								par := ast.Node(nil)
+								if len(st) > 0 {
+									par = st[len(st)-1]
+								}
+								ce, isCall := par.(*ast.CallExpr)
+								if !isCall || ce.Fun != ast.Expr(id) {
+									okUse = false
+								}
+								for _, a := range st {
+									switch a.(type) {
+									case *ast.GoStmt, *ast.DeferStmt, *ast.FuncLit:
+										okUse = false
+									}
+								}
+							}
+							st = append(st, n)
+							return true
+						})
+						if okUse {
+							good[idx] = true
+						}
+					}
+					idx++
+				}
+			}
+			name := fd.Name.Name
+			if _, seen := syncParams[name]; seen || dropped[name] {
+				delete(syncParams, name)
+				dropped[name] = true
+				continue
+			}
+			syncParams[name] = good
+		}
+	}
+	for _, p := range files {
+		f := parsed[p]
 		rel, _ := filepath.Rel(root, p)
 		for _, d := range f.Decls {
 			fd, ok := d.(*ast.FuncDecl)
@@ -87,10 +158,29 @@ func astClientCallSites() ([]callSite, error) {
 					return true
 				}
 				inAsync := false
-				for _, s := range stack {
-					switch s.(type) {
-					case *ast.GoStmt, *ast.DeferStmt, *ast.FuncLit:
+				for i, s := range stack {
+					switch x := s.(type) {
+					case *ast.GoStmt, *ast.DeferStmt:
 						inAsync = true
+					case *ast.FuncLit:
+						// a literal that runs as part of the (ordinary) call it appears in is not a task of its own
+						syncLit := false
+						if i > 0 {
+							if ce, ok := stack[i-1].(*ast.CallExpr); ok {
+								if ce.Fun == ast.Expr(x) {
+									syncLit = true
+								} else if good := syncParams[calleeName(ce.Fun)]; good != nil {
+									for k, a := range ce.Args {
+										if a == ast.Expr(x) && good[k] {
+											syncLit = true
+										}
+									}
+								}
+							}
+						}
+						if !syncLit {
+							inAsync = true
+						}
 					}
 				}
 				switch x := n.(type) {
